@@ -11,6 +11,8 @@ for cfg in sys.argv[1:] or ["A", "B"]:
     facts._loaded.clear()
     F = facts.load(cfg)
     out = {cn: sorted(a["def"] for a in cr.j["adts"]) for cn, cr in F.crates.items()}
+    # shapes of the types (a private type renamed in place keeps its shape: facts.adt_shape)
+    out.update({cn + "#shapes": {a["def"]: facts.adt_shape(a) for a in cr.j["adts"]} for cn, cr in F.crates.items()})
     # free functions too (a function moved into a private module and re-exported keeps its recorded path)
     out.update({cn + "#fns": sorted(set(f["def"] for f in cr.j["fns"] if f.get("dk") == "Fn")) for cn, cr in F.crates.items()})
     json.dump(out, open(p, "w"), indent=1, sort_keys=True)
